@@ -104,6 +104,9 @@ impl<'m> IrConv<'m> {
                 if name.contains('(') || name.contains(' ') {
                     return unsup("IntrinsicWithPayload");
                 }
+                if !is_modelled_intrinsic(&name) {
+                    return unsup("IntrinsicNotModelled");
+                }
                 let ret = match ir_type(self.m, sig.return_type.return_type) {
                     Some(t) => t,
                     None => return unsup("IntrinsicReturnType"),
@@ -117,6 +120,10 @@ impl<'m> IrConv<'m> {
                         Some(t) => tys.push(a(t.name())),
                         None => return unsup("IntrinsicParamType"),
                     }
+                }
+                if tys.is_empty() || tys.iter().any(|t| t != &tys[0]) {
+                    // e.g. `float min(float, int)`: a mixed signature has no single operand type
+                    return unsup("IntrinsicMixedParams");
                 }
                 hist.add(&format!("intr:{}", name));
                 let mut v = vec![a(&name), a(ret.name()), l(tys)];
